@@ -128,6 +128,11 @@ Section C15.
     nth_error (excel_conv_core_row O n H d norm1 lq lk lv lout norm2 a1 a2 row') i.
   Proof. intros; eapply excel_conv_suffix_independent; eassumption. Qed.
 
+  (* the mask is the comparison `seq_ids[key] <= seq_ids[query]` of Model/Layers.v's diam_mask_row *)
+  Theorem diam_mask_is_the_integer_comparison : forall n j l, j < n -> l < n ->
+    nth_error (diam_mask_row O n j) l = Some (if mask_allowed (ids_int64 n) j l then o0 O else onegbig O).
+  Proof. exact (diam_mask_row_is_integer_comparison O). Qed.
+
   (* ---------------- TromptConv ---------------- *)
   Theorem trompt_conv_is_rowwise : forall n C P (ep ec : mat) (w : vec) Lin lin (GN : list t3 -> list t3) gn_r,
     acts_lastaxis Lin lin -> acts_rowwise GN gn_r ->
@@ -180,6 +185,28 @@ Section C15.
   Proof. exact (excel_decoder_shape O). Qed.
 End C15.
 
+(* ---------------- the causal mask over INTEGER column ids, for every width ---------------- *)
+(* excelformer_conv.py DiaM: `register_buffer('seq_ids', torch.arange(num_cols))` and get_attention_mask's
+   `seq_ids[None, None, :] <= seq_ids[None, :, None]`.  With the int64 ids of torch.arange the comparison is
+   "key column <= query column" for EVERY number of columns ... *)
+Theorem mask_allowed_int64 : forall n j l, j < n -> l < n -> mask_allowed (ids_int64 n) j l = (l <=? j).
+Proof. exact mask_allowed_int64_lemma. Qed.
+
+(* ... an 8-bit signed buffer would still be right up to 128 columns ... *)
+Theorem mask_allowed_int8_upto_128 : forall n j l, n <= 128 -> j < n -> l < n ->
+  mask_allowed (ids_int8 n) j l = (l <=? j).
+Proof. exact mask_allowed_int8_upto_128_lemma. Qed.
+
+(* ... and is REFUTED from 129 columns on (witness: 129 columns, query 0, key 128: id 128 wraps to -128 <= 0, so
+   column 0 would attend to the later column 128).  The check replays the witness on every run: at widths >= 129
+   the footprint measured on the real layer must equal the int64 prediction and differ from the int8 prediction. *)
+Theorem mask_int8_refuted : exists n j l, j < n /\ l < n /\ j < l /\ mask_allowed (ids_int8 n) j l = true.
+Proof. exact mask_int8_refuted_lemma. Qed.
+
+Print Assumptions mask_allowed_int64.
+Print Assumptions mask_allowed_int8_upto_128.
+Print Assumptions mask_int8_refuted.
+Print Assumptions diam_mask_is_the_integer_comparison.
 Print Assumptions reshape_heads_roundtrip.
 Print Assumptions multi_head_attention_rowwise.
 Print Assumptions tab_conv_is_rowwise.
